@@ -404,6 +404,13 @@ def _creator(name, f, keep_float64):
         else:
             k["dtype"] = newdt
         r = f(*a, **k)
+        if newdt is object and name in ("zeros", "ones", "full") and isinstance(r, np.ndarray):
+            # float allocations hold exact reals from the start (1/3 stays 1/3 instead of Python's float 0.333..)
+            flat = r.reshape(-1)
+            for i in range(flat.shape[0]):
+                x = flat[i]
+                if isinstance(x, (int, float)) and not isinstance(x, bool) and x == x and x not in (float("inf"), float("-inf")):
+                    flat[i] = SymReal(x)
         return _wrap(r) if isinstance(r, np.ndarray) else r
     g.__name__ = name
     return g
